@@ -393,7 +393,7 @@ def main(argv):
         ctx.only_case = rp.get('case') or None
         ctx.only_stage = rp.get('stage')
     else:
-        ctx.only_stage = None
+        ctx.only_stage = os.environ.get('VERIF_ONLY_STAGE') or None   # development aid: one stage, no floors, evidence untouched
     if prop not in plans.PLANS:
         print('no plan for', prop)
         return 2
